@@ -422,7 +422,7 @@ func initRollingFileLogger(
 
 	// Decide the maximum level for the normal log file.
 	// If Separate is true, warning and above go to a separate .wf file.
-	normalMaxLevel := MaxLevel
+	normalMaxLevel := f.Level.MaxLevel // the single file takes the logger's whole range
 	if f.Separate {
 		normalMaxLevel = WarnLevel
 	}
